@@ -9,27 +9,55 @@
 // Contract of check_adapter_invariants, evaluated natively by fault enumeration: it returns normally for
 // the contract-abiding numbers adapter and panics for the same adapter with ONE documented violation
 // injected at ONE resolver / type / field - for every property, edge and coercion pair of the schema and
-// every violation kind. Bounded stand-in (one schema).
-use crate::interpreter::helpers::check_adapter_invariants;
-use crate::interpreter::{Adapter, AsVertex, ContextIterator, ContextOutcomeIterator, DataContext, ResolveEdgeInfo, ResolveInfo, VertexIterator};
-use crate::ir::{EdgeParameters, FieldValue};
+// every violation kind, each at several positions of the context stream. Two data sources: the repository's
+// numbers adapter, and a schema-driven adapter over a second schema (interfaces, edges whose parameters all
+// have explicit or implicit defaults) that relies on what the contract promises it (every declared edge
+// parameter supplied by name with a value valid for its type). Bounded stand-in (two schemas).
+use crate::interpreter::helpers::{check_adapter_invariants, resolve_coercion_with, resolve_neighbors_with, resolve_property_with};
+use crate::interpreter::{Adapter, AsVertex, ContextIterator, ContextOutcomeIterator, ResolveEdgeInfo, ResolveInfo, VertexIterator};
+use crate::ir::{EdgeParameters, FieldValue, Type};
 use crate::numbers_interpreter::{NumbersAdapter, NumbersVertex};
+use crate::schema::Schema;
 use crate::verif_vk as vk;
 use std::collections::BTreeSet;
+use std::fmt::Debug;
+use std::sync::atomic::{AtomicBool, Ordering};
 use std::sync::Arc;
 
+/// which of the contexts without an active vertex gets the forbidden answer
 #[derive(Clone, Copy, PartialEq, Debug)]
-enum Fault { None, Reorder, NonNullForMissingVertex }
+enum Which { All, First, Middle, Last }
+#[derive(Clone, Copy, PartialEq, Debug)]
+enum Order { SwapFirstTwo, SwapLastTwo, Reverse, RotateLeft }
+#[derive(Clone, Copy, PartialEq, Debug)]
+enum Fault { None, Reorder(Order), NonNullForMissingVertex(Which) }
 #[derive(Clone, PartialEq, Debug)]
 enum Site { Property(String, String), Edge(String, String), Coercion(String, String) }
 
+const FAULTS: [Fault; 8] = [Fault::Reorder(Order::SwapFirstTwo), Fault::Reorder(Order::SwapLastTwo), Fault::Reorder(Order::Reverse), Fault::Reorder(Order::RotateLeft),
+    Fault::NonNullForMissingVertex(Which::All), Fault::NonNullForMissingVertex(Which::First), Fault::NonNullForMissingVertex(Which::Middle), Fault::NonNullForMissingVertex(Which::Last)];
+
+/// `injected` records whether the fault actually changed anything the adapter returned (a "reordering" of
+/// fewer than two items, or no context without an active vertex, is no violation and must not be demanded).
 #[derive(Clone)]
-struct Faulty { inner: NumbersAdapter, site: Site, fault: Fault }
+struct Faulty<A: Clone, Vx: Clone> { inner: A, site: Site, fault: Fault, some_vertex: Vx, injected: Arc<AtomicBool> }
 
-fn reorder<T>(mut v: Vec<T>) -> Vec<T> { if v.len() >= 2 { v.swap(0, 1); } v }
+fn reorder<T>(mut v: Vec<T>, how: Order, injected: &AtomicBool) -> Vec<T> {
+    let n = v.len();
+    if n >= 2 {
+        match how { Order::SwapFirstTwo => v.swap(0, 1), Order::SwapLastTwo => v.swap(n - 2, n - 1), Order::Reverse => v.reverse(), Order::RotateLeft => v.rotate_left(1) }
+        injected.store(true, Ordering::SeqCst);
+    }
+    v
+}
+/// indices (among `missing`) that receive the forbidden answer
+fn chosen(missing: &[usize], which: Which) -> Vec<usize> {
+    if missing.is_empty() { return vec![]; }
+    match which { Which::All => missing.to_vec(), Which::First => vec![missing[0]], Which::Last => vec![missing[missing.len() - 1]], Which::Middle => vec![missing[missing.len() / 2]] }
+}
 
-impl<'a> Adapter<'a> for Faulty {
-    type Vertex = NumbersVertex;
+impl<'a, A: Adapter<'a> + Clone + 'a> Adapter<'a> for Faulty<A, A::Vertex> where A::Vertex: Clone + Debug + 'a {
+    type Vertex = A::Vertex;
     fn resolve_starting_vertices(&self, edge_name: &Arc<str>, parameters: &EdgeParameters, resolve_info: &ResolveInfo) -> VertexIterator<'a, Self::Vertex> {
         self.inner.resolve_starting_vertices(edge_name, parameters, resolve_info)
     }
@@ -37,29 +65,28 @@ impl<'a> Adapter<'a> for Faulty {
         let hit = self.site == Site::Property(type_name.to_string(), property_name.to_string());
         let out = self.inner.resolve_property(contexts, type_name, property_name, resolve_info);
         match (hit, self.fault) {
-            (true, Fault::Reorder) => Box::new(reorder(out.collect::<Vec<_>>()).into_iter()),
-            (true, Fault::NonNullForMissingVertex) => Box::new(out.map(|(c, v)| { let missing = c.active_vertex::<NumbersVertex>().is_none(); (c, if missing { FieldValue::Int64(1) } else { v }) })),
+            (true, Fault::Reorder(how)) => Box::new(reorder(out.collect::<Vec<_>>(), how, &self.injected).into_iter()),
+            (true, Fault::NonNullForMissingVertex(which)) => {
+                let mut all: Vec<_> = out.collect();
+                let missing: Vec<usize> = all.iter().enumerate().filter(|(_, (c, _))| c.active_vertex::<A::Vertex>().is_none()).map(|(i, _)| i).collect();
+                for i in chosen(&missing, which) { all[i].1 = FieldValue::Int64(1); self.injected.store(true, Ordering::SeqCst); }
+                Box::new(all.into_iter())
+            }
             _ => out,
         }
     }
     fn resolve_neighbors<V: AsVertex<Self::Vertex> + 'a>(&self, contexts: ContextIterator<'a, V>, type_name: &Arc<str>, edge_name: &Arc<str>, parameters: &EdgeParameters, resolve_info: &ResolveEdgeInfo) -> ContextOutcomeIterator<'a, V, VertexIterator<'a, Self::Vertex>> {
         let hit = self.site == Site::Edge(type_name.to_string(), edge_name.to_string());
         let out = self.inner.resolve_neighbors(contexts, type_name, edge_name, parameters, resolve_info);
-        let inner = self.inner.clone();
         match (hit, self.fault) {
-            (true, Fault::Reorder) => Box::new(reorder(out.collect::<Vec<_>>()).into_iter()),
-            (true, Fault::NonNullForMissingVertex) => Box::new(out.map(move |(c, ns)| {
-                let missing = c.active_vertex::<NumbersVertex>().is_none();
-                if missing {
-                    let dummy: DataContext<NumbersVertex> = DataContext::new(None);
-                    let _ = dummy;
-                    let ri = None::<&ResolveInfo>;
-                    let _ = ri;
-                    // any neighbour at all for a context without an active vertex
-                    let v: Vec<NumbersVertex> = vec![crate::numbers_interpreter::NumbersAdapter::new().schema().vertex_types.len()].into_iter().map(|_| inner_zero(&inner)).collect();
-                    (c, Box::new(v.into_iter()) as VertexIterator<'a, NumbersVertex>)
-                } else { (c, ns) }
-            })),
+            (true, Fault::Reorder(how)) => Box::new(reorder(out.collect::<Vec<_>>(), how, &self.injected).into_iter()),
+            (true, Fault::NonNullForMissingVertex(which)) => {
+                let mut all: Vec<_> = out.collect();
+                let missing: Vec<usize> = all.iter().enumerate().filter(|(_, (c, _))| c.active_vertex::<A::Vertex>().is_none()).map(|(i, _)| i).collect();
+                // any neighbour at all for a context without an active vertex
+                for i in chosen(&missing, which) { all[i].1 = Box::new(std::iter::once(self.some_vertex.clone())); self.injected.store(true, Ordering::SeqCst); }
+                Box::new(all.into_iter())
+            }
             _ => out,
         }
     }
@@ -67,36 +94,94 @@ impl<'a> Adapter<'a> for Faulty {
         let hit = self.site == Site::Coercion(type_name.to_string(), coerce_to_type.to_string());
         let out = self.inner.resolve_coercion(contexts, type_name, coerce_to_type, resolve_info);
         match (hit, self.fault) {
-            (true, Fault::Reorder) => Box::new(reorder(out.collect::<Vec<_>>()).into_iter()),
-            (true, Fault::NonNullForMissingVertex) => Box::new(out.map(|(c, b)| { let missing = c.active_vertex::<NumbersVertex>().is_none(); (c, missing || b) })),
+            (true, Fault::Reorder(how)) => Box::new(reorder(out.collect::<Vec<_>>(), how, &self.injected).into_iter()),
+            (true, Fault::NonNullForMissingVertex(which)) => {
+                let mut all: Vec<_> = out.collect();
+                let missing: Vec<usize> = all.iter().enumerate().filter(|(_, (c, _))| c.active_vertex::<A::Vertex>().is_none()).map(|(i, _)| i).collect();
+                for i in chosen(&missing, which) { all[i].1 = true; self.injected.store(true, Ordering::SeqCst); }
+                Box::new(all.into_iter())
+            }
             _ => out,
         }
     }
 }
-fn inner_zero(inner: &NumbersAdapter) -> NumbersVertex {
-    // the vertex for the number 0, obtained through the adapter's own entry point resolution is not needed:
-    // a neighbour resolved from an existing vertex is enough
+
+fn numbers_zero(inner: &NumbersAdapter) -> NumbersVertex {
     let q = crate::frontend::parse(inner.schema(), "{ Zero { value @output } }").expect("valid");
     let ri = ResolveInfo::new(crate::interpreter::InterpretedQuery::from_query_and_arguments(q, Arc::new(Default::default())).expect("ok"), crate::ir::Vid::new(std::num::NonZeroUsize::new(1).unwrap()), false);
     inner.resolve_starting_vertices(&Arc::from("Zero"), &EdgeParameters::default(), &ri).next().expect("zero exists")
 }
 
-fn checker_panics(adapter: Faulty) -> bool {
-    let schema = adapter.inner.schema().clone();
-    std::panic::catch_unwind(std::panic::AssertUnwindSafe(move || check_adapter_invariants(&schema, adapter))).is_err()
+// ---- a schema-driven, contract-abiding adapter that relies on what the contract promises it ----
+const SECOND_SCHEMA: &str = r#"schema { query: RootSchemaQuery }
+directive @filter(op: String!, value: [String!]) repeatable on FIELD | INLINE_FRAGMENT
+directive @tag(name: String) repeatable on FIELD
+directive @output(name: String) repeatable on FIELD
+directive @optional on FIELD
+directive @recurse(depth: Int!) on FIELD
+directive @fold on FIELD
+directive @transform(op: String!) repeatable on FIELD
+type RootSchemaQuery { Item(limit: Int = 2): [Item!]  Special: Special }
+interface Item { name: String  size: Int!  tags: [String!]!  related(limit: Int! = 3, prefix: String): [Item!]  parent(kind: String = "x", depth: Int): Item  plain: Item }
+type Plain implements Item { name: String  size: Int!  tags: [String!]!  related(limit: Int! = 3, prefix: String): [Item!]  parent(kind: String = "x", depth: Int): Item  plain: Item }
+type Special implements Item { name: String  size: Int!  tags: [String!]!  related(limit: Int! = 3, prefix: String): [Item!]  parent(kind: String = "x", depth: Int): Special  plain: Item  extra: Float  flags(only: [Boolean!] = [true], ratio: Float = 1.5): [Special!]! }
+"#;
+#[derive(Clone, Debug)]
+struct SchemaDriven { schema: Arc<Schema> }
+type GV = (Arc<str>, i64);
+impl SchemaDriven {
+    fn concrete(&self, ty: &str) -> Vec<Arc<str>> {
+        let mut v: Vec<Arc<str>> = self.schema.subtypes(ty).expect("type exists").filter(|t| matches!(self.schema.vertex_types[*t].kind, async_graphql_parser::types::TypeKind::Object(_))).map(|t| Arc::from(t)).collect();
+        v.sort(); v
+    }
+    fn target_of(&self, ty: &str, field: &str) -> String {
+        let def = &self.schema.fields[&(Arc::from(ty), Arc::from(field))];
+        let mut b = &def.ty.node.base;
+        while let async_graphql_parser::types::BaseType::List(inner) = b { b = &inner.base; }
+        let async_graphql_parser::types::BaseType::Named(nm) = b else { unreachable!() };
+        nm.to_string()
+    }
+    /// what the contract promises: every declared parameter is supplied, by name, with a value valid for its declared type
+    fn rely_on_parameters(&self, ty: &str, edge: &str, parameters: &EdgeParameters) {
+        let def = &self.schema.fields[&(Arc::from(ty), Arc::from(edge))];
+        for arg in &def.arguments {
+            let name = arg.node.name.node.as_str();
+            let value = parameters.get(name).unwrap_or_else(|| panic!("edge parameter {name} of {ty}.{edge} was not supplied"));
+            let declared = Type::from_type(&arg.node.ty.node);
+            assert!(declared.is_valid_value(value), "edge parameter {name} of {ty}.{edge} has value {value:?}, not valid for {declared}");
+        }
+        assert_eq!(def.arguments.len(), parameters.iter().count(), "unexpected extra parameters for {ty}.{edge}");
+    }
+}
+impl<'a> Adapter<'a> for SchemaDriven {
+    type Vertex = GV;
+    fn resolve_starting_vertices(&self, edge_name: &Arc<str>, parameters: &EdgeParameters, _resolve_info: &ResolveInfo) -> VertexIterator<'a, Self::Vertex> {
+        let root = self.schema.query_type_name().to_string();
+        self.rely_on_parameters(&root, edge_name, parameters);
+        let target = self.target_of(&root, edge_name);
+        Box::new(self.concrete(&target).into_iter().flat_map(|t| [(t.clone(), 1i64), (t, 2i64)]))
+    }
+    fn resolve_property<V: AsVertex<Self::Vertex> + 'a>(&self, contexts: ContextIterator<'a, V>, type_name: &Arc<str>, property_name: &Arc<str>, _resolve_info: &ResolveInfo) -> ContextOutcomeIterator<'a, V, FieldValue> {
+        if property_name.as_ref() == "__typename" { return resolve_property_with(contexts, |v: &GV| FieldValue::String(v.0.clone())); }
+        let declared = Type::from_type(&self.schema.fields[&(type_name.clone(), property_name.clone())].ty.node);
+        resolve_property_with(contexts, move |v: &GV| {
+            if declared.is_list() { FieldValue::List(Vec::new().into()) } else {
+                match declared.base_type() { "Int" => FieldValue::Int64(v.1), "String" => FieldValue::String(Arc::from(format!("{}{}", v.0, v.1))), "Float" => FieldValue::Float64(1.5), "Boolean" => FieldValue::Boolean(true), other => unreachable!("{other}") }
+            }
+        })
+    }
+    fn resolve_neighbors<V: AsVertex<Self::Vertex> + 'a>(&self, contexts: ContextIterator<'a, V>, type_name: &Arc<str>, edge_name: &Arc<str>, parameters: &EdgeParameters, _resolve_info: &ResolveEdgeInfo) -> ContextOutcomeIterator<'a, V, VertexIterator<'a, Self::Vertex>> {
+        self.rely_on_parameters(type_name, edge_name, parameters);
+        let targets = self.concrete(&self.target_of(type_name, edge_name));
+        resolve_neighbors_with(contexts, move |v: &GV| { let id = v.1; Box::new(targets.clone().into_iter().map(move |t| (t, id + 1))) })
+    }
+    fn resolve_coercion<V: AsVertex<Self::Vertex> + 'a>(&self, contexts: ContextIterator<'a, V>, _type_name: &Arc<str>, coerce_to_type: &Arc<str>, _resolve_info: &ResolveInfo) -> ContextOutcomeIterator<'a, V, bool> {
+        let ok: BTreeSet<Arc<str>> = self.concrete(coerce_to_type).into_iter().collect();
+        resolve_coercion_with(contexts, move |v: &GV| ok.contains(&v.0))
+    }
 }
 
-// @grid c25_grid_fault_enumeration tier=quick bound="numbers schema: every (type, property), (type, edge) and (type, subtype) coercion pair x {reordered contexts, non-null property / a neighbour / true coercion for a context without active vertex}"
-// @ob check_adapter_invariants passes for the contract-abiding adapter and fails for that adapter with any single documented violation injected at any single resolver / type / field
-pub(crate) fn c25_grid_fault_enumeration() {
-    let mut n = 0u64;
-    let mut failures = BTreeSet::new();
-    let base = NumbersAdapter::new();
-    let schema = base.schema().clone();
-    if checker_panics(Faulty { inner: base.clone(), site: Site::Property("-".into(), "-".into()), fault: Fault::None }) {
-        failures.insert("the checker rejects the contract-abiding numbers adapter".to_string());
-    }
-    n += 1;
+fn sites_of(schema: &Schema) -> Vec<Site> {
     let root = schema.query_type_name().to_string();
     let mut sites: Vec<Site> = Vec::new();
     let mut keys: Vec<(String, String)> = schema.fields.keys().map(|(t, f)| (t.to_string(), f.to_string())).filter(|(t, _)| *t != root).collect();
@@ -112,14 +197,44 @@ pub(crate) fn c25_grid_fault_enumeration() {
     types.sort();
     for t in &types { sites.push(Site::Property(t.clone(), "__typename".into())); }
     for t in &types { if let Some(subs) = schema.subtypes(t) { let mut subs: Vec<String> = subs.map(|s| s.to_string()).filter(|s| s != t).collect(); subs.sort(); for s in subs { sites.push(Site::Coercion(t.clone(), s)); } } }
-    for site in sites { for fault in [Fault::Reorder, Fault::NonNullForMissingVertex] {
-        vk::grid_case(format_args!("{:?} {:?}", site, fault));
-        if !checker_panics(Faulty { inner: base.clone(), site: site.clone(), fault }) {
-            let where_ = match &site { Site::Property(t, f) => format!("property {t}.{f}"), Site::Edge(t, f) => format!("edge {t}.{f}"), Site::Coercion(t, s) => format!("coercion {t}->{s}") };
-            failures.insert(format!("violation not caught: {fault:?} at {where_}"));
+    sites
+}
+
+fn enumerate_faults<'a, A: Adapter<'a> + Clone + 'a>(label: &str, schema: &Schema, base: A, some_vertex: A::Vertex, n: &mut u64, failures: &mut BTreeSet<String>) where A::Vertex: Clone + Debug + 'a {
+    let run = |site: Site, fault: Fault| -> (bool, bool) {
+        let injected = Arc::new(AtomicBool::new(false));
+        let adapter = Faulty { inner: base.clone(), site, fault, some_vertex: some_vertex.clone(), injected: injected.clone() };
+        let panicked = std::panic::catch_unwind(std::panic::AssertUnwindSafe(|| check_adapter_invariants(schema, adapter))).is_err();
+        (panicked, injected.load(Ordering::SeqCst))
+    };
+    vk::grid_case(format_args!("{} no fault", label));
+    if run(Site::Property("-".into(), "-".into()), Fault::None).0 { failures.insert(format!("the checker rejects the contract-abiding {label} adapter")); }
+    *n += 1;
+    for site in sites_of(schema) {
+        let where_ = match &site { Site::Property(t, f) => format!("property {t}.{f}"), Site::Edge(t, f) => format!("edge {t}.{f}"), Site::Coercion(t, s) => format!("coercion {t}->{s}") };
+        let (mut missed, mut exercised) = (Vec::new(), false);
+        for fault in FAULTS {
+            vk::grid_case(format_args!("{} {:?} {:?}", label, site, fault));
+            let (panicked, injected) = run(site.clone(), fault);
+            exercised |= injected;
+            if !panicked { missed.push(format!("{fault:?}")); }
+            *n += 1;
         }
-        n += 1;
-    } }
+        // `never exercised`: the checker gave this resolver nothing any fault could act on (it does not check the site at all)
+        if !missed.is_empty() { failures.insert(format!("{label} {where_}: {} of {} violations not caught{} ({})", missed.len(), FAULTS.len(), if exercised { "" } else { ", site never exercised" }, missed.join(" "))); }
+    }
+}
+
+// @grid c25_grid_fault_enumeration tier=quick bound="numbers schema and a second schema (interface with two implementers, edges whose parameters all have explicit or implicit defaults, list/float/boolean parameters): every (type, property), (type, edge) and (type, subtype) coercion pair x {contexts reordered: first two swapped, last two swapped, reversed, rotated; a non-null property / a neighbour / a true coercion for a context without active vertex: at all, only the first, only a middle, only the last such context}"
+// @ob check_adapter_invariants passes for the contract-abiding adapter (including one that relies on every declared edge parameter being supplied by name with a valid value) and fails for that adapter with any single documented violation injected at any single resolver / type / field
+pub(crate) fn c25_grid_fault_enumeration() {
+    let mut n = 0u64;
+    let mut failures = BTreeSet::new();
+    let numbers = NumbersAdapter::new();
+    let zero = numbers_zero(&numbers);
+    enumerate_faults("numbers", &numbers.schema().clone(), numbers, zero, &mut n, &mut failures);
+    let second = Arc::new(Schema::parse(SECOND_SCHEMA).expect("harness schema is valid"));
+    enumerate_faults("second", &second.clone(), SchemaDriven { schema: second }, (Arc::from("Plain"), 7), &mut n, &mut failures);
     vk::grid_done("c25_grid_fault_enumeration", n);
-    if !failures.is_empty() { panic!("adapter invariant checker contract failures: {{{}}}", failures.into_iter().take(12).collect::<Vec<_>>().join("; ")); }
+    if !failures.is_empty() { panic!("adapter invariant checker contract failures: {{{}}}", failures.into_iter().collect::<Vec<_>>().join("; ")); }
 }
